@@ -10,15 +10,15 @@ cd $W || exit 2
 git checkout -q -- . ; git apply $O/patch.diff || { echo "patch does not apply"; exit 2; }
 go build ./... || { echo "BUILD FAILS with patch"; exit 1; }
 cp $O/demo_test.go $W/$PKG/zz_demo_test.go
-timeout 900 go test -count=1 -run 'Demo' ./$PKG/ > /tmp/seed_$ID.with.log 2>&1; RW=$?
-git stash -q; 
-timeout 900 go test -count=1 -run 'Demo' ./$PKG/ > /tmp/seed_$ID.without.log 2>&1; RWO=$?
-git stash pop -q
+timeout 900 go test -count=1 -run "$(grep -oE '^func (Test[A-Za-z0-9_]+)' $O/demo_test.go | awk '{print $2}' | paste -sd'|')" ./$PKG/ > /tmp/seed_$ID.with.log 2>&1; RW=$?
+git apply -R $O/patch.diff   # (git stash is shared between worktrees of one repository: never use it here)
+timeout 900 go test -count=1 -run "$(grep -oE '^func (Test[A-Za-z0-9_]+)' $O/demo_test.go | awk '{print $2}' | paste -sd'|')" ./$PKG/ > /tmp/seed_$ID.without.log 2>&1; RWO=$?
+git apply $O/patch.diff
 rm -f $W/$PKG/zz_demo_test.go
 timeout 1500 go test -count=1 ./$PKG/ > /tmp/seed_$ID.pkg.log 2>&1; RP=$?
 echo "demo with patch exit=$RW (want !=0), without exit=$RWO (want 0), package tests with patch exit=$RP (want 0)"
 if [ $RW -ne 0 ] && [ $RWO -eq 0 ] && [ $RP -eq 0 ]; then
   mkdir -p /verif/seeded/$ID && cp $O/patch.diff $O/demo_test.go $O/meta.json /verif/seeded/$ID/ && echo CONFIRMED
 else
-  echo NOT-CONFIRMED; tail -5 /tmp/seed_$ID.with.log /tmp/seed_$ID.without.log /tmp/seed_$ID.pkg.log
+  echo NOT-CONFIRMED; for f in with without pkg; do echo "-- $f"; tail -n 5 /tmp/seed_$ID.$f.log; done
 fi
